@@ -106,7 +106,7 @@ func genPlan(t *rapid.T, o genOpts) *world.Plan {
 		o.realLWallet = 40
 	}
 	for i := 0; i < 2; i++ {
-		if o.realLWallet > 0 && scn.LiquidBackend[i] == "elementsd" && rapid.IntRange(0, 99).Draw(t, "real-lwallet") < o.realLWallet {
+		if o.realLWallet > 0 && rapid.IntRange(0, 99).Draw(t, "real-lwallet") < o.realLWallet {
 			scn.RealLiquidWallet[i] = true
 		}
 	}
